@@ -74,6 +74,13 @@ CLAIMED = {
         "Partial: preemption inside a source line / C extension is not explored.",
    technique="Lean 4 proof (invariant over arbitrary schedules of a small-step protocol model) + systematic schedule exploration of the real code with a preemption bound",
    design="§5 C18"),
+ "C20": dict(
+   text="Theorems (Props/C20.lean), parametric in the element type (values are moved, never computed with): for every batch of examples with a common trailing shape, pad_tensors returns values and validity of shape "
+        "(batch, longest length, trailing…); row e is example e's values / validity unchanged, followed by the pad value / False (collate_masked: prefix and padding clauses for every example and every length combination incl. "
+        "equal lengths, 1 and 0); integers become one tensor in order, strings pass through in order, masked fields inside dictionaries / tuples are collated by the same function. The real zero_pad_collator is run on generated "
+        "nested batches and compared with the model and row by row with the examples.",
+   technique="Lean 4 proof (list-level model of pad/stack, parametric in the element type) + differential correspondence on nested batches",
+   design="§5 C20"),
 }
 
 checks = []
